@@ -300,7 +300,15 @@ impl<'a> Gen<'a> {
                 let v = self.fresh("v");
                 let c = self.any(rng, 1);
                 let (n1, u1, n2, u2) = (self.number(rng), self.named_unit(rng, i), self.number(rng), self.named_unit(rng, j));
-                self.stmts.push(format!("let {} = {} {{ a: {} {}, b: {} {}, c: {} }}", v, s, n1, u1, n2, u2, c));
+                // the fields are written in a random order (names and values permuted together); one case in four
+                // crosses the values of `a` and `b` instead — ill-typed whenever their dimensions differ: the checker
+                // must reject it, and if it does not, the raw field values disagree with the static field types
+                let crossed = rng.chance(1, 4) && i != j;
+                let (va, vb) = if crossed { (format!("{} {}", n2, u2), format!("{} {}", n1, u1)) } else { (format!("{} {}", n1, u1), format!("{} {}", n2, u2)) };
+                let mut fields = vec![format!("a: {}", va), format!("b: {}", vb), format!("c: {}", c)];
+                rng.shuffle(&mut fields);
+                if crossed { self.tags.push("struct-crossed".into()); }
+                self.stmts.push(format!("let {} = {} {{ {} }}", v, s, fields.join(", ")));
                 self.checked.push(v.clone());
                 let w = self.fresh("v");
                 self.stmts.push(format!("let {} = {}.a * {}.c / {}.b", w, v, v, v));
